@@ -15,7 +15,8 @@ struct nng_msg {
 	size_t len;
 	int    refcnt;
 	u32    pipe;
-	int    id; /* allocation sequence number (monitor use) */
+	int    id;  /* allocation sequence number (monitor use) */
+	int    tag; /* set by harnesses, copied by dup (monitor use) */
 };
 extern int env_msg_live, env_msg_allocs, env_msg_seq;
 #endif
